@@ -257,7 +257,7 @@ def install_loops(wh, on_create_iteration=None, on_outer_iteration=None):
 
     def havoc(fr):
       pass
-    ip.loops[(WCD, ordn)] = LoopSpec(anchor, inv, havoc, locals_modified=['schema'] + list(var_unset),
+    ip.loops[(WCD, ordn)] = LoopSpec(anchor, inv, havoc, locals_modified=list(var_unset),
                                      label_prefix='C19/')
   first_match_loop(2, 'for schema in SCHEMAS', ['archiveConfig'])
   first_match_loop(3, 'for schema in AGGREGATION_SCHEMAS', ['xFilesFactor', 'aggregationMethod'])
